@@ -38,6 +38,9 @@ def meanOf (vs : List Val) : Val :=
 def windowTimes (T : Int) (w : Nat) : List Int :=
   (List.range w).map (fun (i : Nat) => T - (w : Int) + 1 + (i : Int))
 
+/-- the observations in that window, oldest first -/
+def window (y : Int → Val) (T : Int) (w : Nat) : List Val := (windowTimes T w).map y
+
 /-- ⌈h / sp⌉ for `h ≥ 1` -/
 def seasonsBack (h : Int) (sp : Nat) : Int := (h + (sp : Int) - 1) / (sp : Int)
 
@@ -47,7 +50,7 @@ def seasonalLast (y : Int → Val) (T : Int) (sp : Nat) (h : Int) : Val :=
   y (T + h - (sp : Int) * seasonsBack h sp)
 
 def mean (y : Int → Val) (T : Int) (w : Nat) (_h : Int) : Val :=
-  meanOf ((windowTimes T w).map y)
+  meanOf (window y T w)
 
 /-- same season as the target time `T + h` -/
 def sameSeason (T : Int) (sp : Nat) (h : Int) (t : Int) : Bool := (t - (T + h)) % (sp : Int) == 0
